@@ -76,6 +76,55 @@ def relayout(text, rng, p_gap=0.35):
     return ''.join(out), mapping
 
 
+def compact(text):
+    """token-preserving re-layout with NO optional white space: a run of white space outside string literals and pragma lines is
+    dropped, unless both neighbours are word characters (then one blank remains); -> (new text, map old -> new byte offset)"""
+    out, mapping = [], {}
+    i, n = 0, len(text)
+    old_b = new_b = 0
+    in_str, in_pragma = None, False
+    word = lambda c: c.isalnum() or c in '_$' or ord(c) > 127
+    while i < n:
+        ch = text[i]
+        if in_str:
+            out.append(ch); mapping[old_b] = new_b
+            w = len(ch.encode()); old_b += w; new_b += w
+            if ch == '\\' and i + 1 < n:
+                i += 1
+                out.append(text[i]); w = len(text[i].encode()); old_b += w; new_b += w
+            elif ch == in_str:
+                in_str = None
+            i += 1
+            continue
+        if text.startswith('pragma', i) and (i == 0 or not text[i - 1].isalnum()):
+            in_pragma = True
+        if in_pragma:
+            out.append(ch); mapping[old_b] = new_b
+            w = len(ch.encode()); old_b += w; new_b += w
+            if ch == ';':
+                in_pragma = False
+            i += 1
+            continue
+        if ch in ' \t\r\n':
+            j = i
+            while j < n and text[j] in ' \t\r\n':
+                j += 1
+            prev = out[-1][-1] if out else ' '
+            nxt = text[j] if j < n else ' '
+            # keep one blank between two word characters, between operator characters that could fuse (`a + +b`, `a - -b`, `/ /`)
+            gap = ' ' if (word(prev) and word(nxt)) or (prev in '+-/*<>=!&|' and nxt in '+-/*<>=!&|') else ''
+            out.append(gap)
+            old_b += len(text[i:j].encode()); new_b += len(gap)
+            i = j
+            continue
+        if ch in '"\'':
+            in_str = ch
+        out.append(ch); mapping[old_b] = new_b
+        w = len(ch.encode()); old_b += w; new_b += w
+        i += 1
+    return ''.join(out), mapping
+
+
 def family_files(chk):
     """(label, builder -> SourceUnit) drawn from the families of the other checks"""
     out = []
@@ -175,8 +224,8 @@ def job(chk, idxs):
         conc = fam.concrete_file(su, {}, z3.Solver().model() if False else _empty_model())
         text, starts = sol.print_source(conc)
         layouts = []
-        for variant, p_gap in (('random gaps', 0.35), ('a gap at every token boundary', 1.0)):
-            new_text, mp = relayout(text, rng, p_gap)
+        for variant, p_gap in (('random gaps', 0.35), ('a gap at every token boundary', 1.0), ('no optional white space', None)):
+            new_text, mp = relayout(text, rng, p_gap) if p_gap is not None else compact(text)
             p_old, p_new = chk.native.file(text), chk.native.file(new_text)
             nat = chk.native.run([['debugtree', p_old], ['debugtree', p_new]])
             same_tree = nat[0][0] == 'OK' and nat[1][0] == 'OK' and sol.strip_locs(unhex(nat[0][1])) == sol.strip_locs(unhex(nat[1][1]))
@@ -260,7 +309,7 @@ def body(chk):
         idx = sorted(set(idx[:70]) | set(core))
     chk.bounds = {'files': '%d of %d family files (C05-C09, C15, C19 families) x 30 detectors' % (len(idx), len(files)),
                   'symbolic': 'all byte offsets free; string literal contents unobservable except their length',
-                  're-layouts': 'two seeded token-preserving re-layouts per file: random gaps in white space and at 35 % of the boundaries between names and punctuation, and a gap at EVERY such boundary (gaps: spaces, tabs, LF, CRLF, blank lines, line / block / doc comments with code-like and multi-byte text)',
+                  're-layouts': 'two seeded token-preserving re-layouts per file: random gaps in white space and at 35 % of the boundaries between names and punctuation, a gap at EVERY such boundary, and a layout without any optional white space (gaps: spaces, tabs, LF, CRLF, blank lines, line / block / doc comments with code-like and multi-byte text)',
                   'outside': 'the parser (token-preserving re-layout parses to the same tree: checked on every file through the real parser, not proved); comments inside pragma values'}
     chk.assumptions = ['parser contract: token-preserving re-layout yields the same tree up to Locs (validated per file with the real parser)', 'as C05']
     chk.parallel(job, [idx[k:k + 5] for k in range(0, len(idx), 5)])
